@@ -108,6 +108,10 @@ type Peer struct {
 	NoRead atomic.Bool
 	// Delay before each response (0 = none).
 	Delay time.Duration
+	// HdrBatch, if > 0, caps the headers per headers message (a peer may send
+	// fewer than the protocol maximum; the client keeps asking while it is
+	// not current).
+	HdrBatch int
 	// TimeOffset is added to the timestamp in the version message.
 	TimeOffset time.Duration
 	// StartHeightOverride, if non-zero, is advertised instead of the tip.
@@ -413,7 +417,11 @@ func (p *Peer) Honest(m wire.Message) ([]wire.Message, wire.MessageEncoding) {
 		}
 		resp := wire.NewMsgHeaders()
 		path := tip.Path()
-		for h := start + 1; h <= tip.Height && len(resp.Headers) < wire.MaxBlockHeadersPerMsg; h++ {
+		maxHdrs := wire.MaxBlockHeadersPerMsg
+		if p.HdrBatch > 0 && p.HdrBatch < maxHdrs {
+			maxHdrs = p.HdrBatch
+		}
+		for h := start + 1; h <= tip.Height && len(resp.Headers) < maxHdrs; h++ {
 			hdr := path[h].Hdr
 			_ = resp.AddBlockHeader(&hdr)
 			if path[h].Hash == t.HashStop {
